@@ -863,8 +863,8 @@ Section SU.
 
   (* ---- list predicates ------------------------------------------------------------------------- *)
   Lemma no_bad_all : forall l,
-    (fix all (l : list expr) : Prop := match l with [] => True | x :: r => no_bad x /\ all r end) l ->
-    forall x, In x l -> no_bad x.
+    (fix all (l : list expr) : Prop := match l with [] => True | x :: r => no_bad W x /\ all r end) l ->
+    forall x, In x l -> no_bad W x.
   Proof.
     induction l as [|y r IH]; intros H x Hin; [destruct Hin|].
     destruct H as [H1 H2]. destruct Hin as [->|Hin]; [assumption | eauto].
@@ -879,8 +879,8 @@ Section SU.
     destruct H as [H1 H2]. destruct Hin as [E|Hin]; [inv E; assumption | eauto].
   Qed.
   Lemma no_bad_parts : forall l,
-    (fix go (l : list (expr * list Z)) : Prop := match l with [] => True | (v, _) :: r => no_bad v /\ go r end) l ->
-    forall v t, In (v, t) l -> no_bad v.
+    (fix go (l : list (expr * list Z)) : Prop := match l with [] => True | (v, _) :: r => no_bad W v /\ go r end) l ->
+    forall v t, In (v, t) l -> no_bad W v.
   Proof.
     induction l as [|[p q] r IH]; intros H v t Hin; [destruct Hin|].
     destruct H as [H1 H2]. destruct Hin as [E|Hin]; [inv E; assumption | eauto].
@@ -895,8 +895,8 @@ Section SU.
   Qed.
   Lemma no_bad_props : forall l,
     (fix go (l : list (Z * bool * expr * expr)) : Prop :=
-       match l with [] => True | (_, _, k, v) :: r => no_bad k /\ no_bad v /\ go r end) l ->
-    forall a b k v, In (a, b, k, v) l -> no_bad v.
+       match l with [] => True | (_, _, k, v) :: r => no_bad W k /\ no_bad W v /\ go r end) l ->
+    forall a b k v, In (a, b, k, v) l -> no_bad W v.
   Proof.
     induction l as [|[[[a0 b0] k0] v0] r IH]; intros H a b k v Hin; [destruct Hin|].
     destruct H as [H1 [H2 H3]]. destruct Hin as [E|Hin]; [inv E; assumption | eauto].
@@ -923,7 +923,21 @@ Section SU.
     intros e Hf Hc. apply SE_pure. intros tr tr' out Hev. exact (can_be_removed_sound_all W Wok e tr tr' out Hf Hc Hev).
   Qed.
 
-  Theorem su_sound_fuel : forall f e, flags_ok W e -> no_bad e ->
+  (* arguments that can all be removed and evaluate: no effects *)
+  Lemma items_all_pure : forall l,
+    (forall x, In x l -> flags_ok W x /\ can_be_removed ub x = true /\ forall tr, ev tr x <> None) ->
+    forall t, EEitems l t = Some (t, None).
+  Proof.
+    induction l as [|x r IHl]; intros H t; [apply items_nil|].
+    rewrite items_cons. destruct (H x (or_introl eq_refl)) as [Hf [Hc Hd]].
+    assert (HE : EE x t = Some (t, None)).
+    { unfold EE. destruct (ev t x) as [[t' o]|] eqn:E; [|exfalso; exact (Hd t E)].
+      destruct (can_be_removed_sound_all W Wok x t t' o Hf Hc E) as [-> [v ->]]. reflexivity. }
+    rewrite EEitem_plain by (rewrite HE; discriminate). rewrite HE. cbn [seq_eff].
+    apply IHl. intros y Hy. apply H. right. exact Hy.
+  Qed.
+
+  Theorem su_sound_fuel : forall f e, flags_ok W e -> no_bad W e ->
     su_fuel f ub true e <> UFuel -> SE e (su_fuel f ub true e).
   Proof.
     induction f as [|f IH]; intros e Hfl Hnb Hf; [cbn in Hf; congruence|].
@@ -936,17 +950,31 @@ Section SU.
       destruct removable; [|apply SE_refl]. apply by_cbr; [assumption|reflexivity].
     - (* ECall *)
       destruct pure; [|apply SE_refl].
-      cbn [no_bad] in Hnb. destruct Hnb as [Hoc [Hnt Hna]]. pose proof (Hoc eq_refl) as ->.
-      cbn [flags_ok] in Hfl. destruct Hfl as [Hpc [Hft Hfa]].
+      cbn [no_bad] in Hnb. destruct Hnb as [Hdef [Hnt Hna]].
+      pose proof Hfl as Hfl0. cbn [flags_ok] in Hfl. destruct Hfl as [Hpc [Hft Hfa]].
       set (g := fun x => match x with ESpread _ => UExpr (EArray [x]) | _ => su_fuel f ub true x end).
-      change (SE (ECall e args 0 true) (items_go g args UNil)). change (items_go g args UNil <> UFuel) in Hf.
-      intros tr Hn. rewrite (EE_pure_call _ _ _ (Hpc eq_refl)) in Hn |- *.
-      rewrite fold_items; [reflexivity| |exact Hf|exact Hn].
-      intros x Hin Hgx. pose proof (flags_all W _ Hfa x Hin) as Hfx. pose proof (no_bad_all _ Hna x Hin) as Hnx.
-      destruct x; try (apply item_se_of_SE; [reflexivity|]; apply IH; assumption).
-      + unfold g in *. rewrite su_missing by exact Hgx. intros t _. reflexivity.
-      + unfold g. intros t Hn2. rewrite EU_expr, EE_array, items_cons.
-        etransitivity; [apply seq_ext; intros; apply items_nil | apply seq_ret].
+      assert (Hitem : forall x, In x args -> g x <> UFuel -> item_se x (g x)).
+      { intros x Hin Hgx. pose proof (flags_all W _ Hfa x Hin) as Hfx. pose proof (no_bad_all _ Hna x Hin) as Hnx.
+        destruct x; try (apply item_se_of_SE; [reflexivity|]; apply IH; assumption).
+        + unfold g in *. rewrite su_missing by exact Hgx. intros t _. reflexivity.
+        + unfold g. intros t Hn2. rewrite EU_expr, EE_array, items_cons.
+          etransitivity; [apply seq_ext; intros; apply items_nil | apply seq_ret]. }
+      revert Hf.
+      destruct (negb (oc =? 0) && negb (can_be_removed ub (ECall e args oc true))) eqn:Ck; intros Hf; [apply SE_refl|].
+      change (SE (ECall e args oc true) (items_go g args UNil)). change (items_go g args UNil <> UFuel) in Hf.
+      destruct (oc =? 0) eqn:Eoc.
+      + apply Z.eqb_eq in Eoc. subst oc.
+        intros tr Hn. rewrite (EE_pure_call _ _ _ (Hpc eq_refl)) in Hn |- *.
+        rewrite fold_items; [reflexivity|exact Hitem|exact Hf|exact Hn].
+      + (* a pure call in an optional chain whose arguments can all be removed (fix a3926ba) *)
+        cbn [negb andb] in Ck. apply negb_false_iff in Ck. apply Z.eqb_neq in Eoc.
+        assert (Hitems : forall t, EEitems args t = Some (t, None)).
+        { apply items_all_pure. intros x Hin. split; [exact (flags_all W _ Hfa x Hin)|]. split.
+          - cbn [can_be_removed] in Ck. exact (all_args W _ Ck x Hin).
+          - exact (Hdef eq_refl Eoc Ck x Hin). }
+        intros tr Hn. pose proof (by_cbr _ Hfl0 Ck tr Hn) as HE. rewrite EU_nil in HE. rewrite <- HE.
+        rewrite fold_items; [rewrite EU_nil; cbn [seq_eff]; apply Hitems | exact Hitem | exact Hf |].
+        rewrite EU_nil. cbn [seq_eff]. rewrite Hitems. discriminate.
     - (* ENew *)
       destruct pure; [|apply SE_refl].
       cbn [no_bad] in Hnb. destruct Hnb as [Hnt Hna].
@@ -1089,7 +1117,7 @@ Section SU.
 
   (* final form: same trace, same kind of completion, same thrown value *)
   Theorem simplify_unused_sound_partial_all : forall e tr res,
-    flags_ok W e -> no_bad e ->
+    flags_ok W e -> no_bad W e ->
     simplify_unused ub true e <> UFuel ->
     ev tr e = Some res ->
     same_effects (Some res) (eval_unused W tr (simplify_unused ub true e)).
